@@ -933,6 +933,7 @@ func checkC05(c *Ctx) {
 	R.Assumptions = []string{"Lexer.getChar returns RuneEOF at and beyond the end of input", "tables/progress_allow.json and tables/bce.json reviewed entry by entry"}
 	u := c.Core()
 	u.buildSSA()
+	ruleLineIndents(c, u, "C05.indents")
 	checkProgress(c, u)
 
 	// ---- C05.whole: compilation yields a tree only for the whole text: after the program production ParseAST tests that the
